@@ -22,8 +22,17 @@ def mix(z):
     return z ^ (z >> 31)
 
 
+def is_long(tid, seq):
+    return (seq + tid) % 8 == 4 and seq % 4 == 0
+
+
 def expected_record(tid, seq, strip):
-    """Mirror of vh-mt's record generator (kept deliberately tiny)."""
+    """Mirror of vh-mt's record generator (kept deliberately tiny).  Returns the exact bytes one call must produce."""
+    crc = mix((tid * 1000003 + seq) & M64) & 0xFFFFFFFF
+    if is_long(tid, seq):
+        unit = "t%xs%x." % (tid, seq)
+        tail = (unit * (1500 // len(unit) + 1))[:1500]
+        return ("<%d:%d:L\n%s:%08x>" % (tid, seq, tail, crc)).encode()
     n = 3 + (seq % 4)
     parts = []
     for k in range(n):
@@ -32,11 +41,10 @@ def expected_record(tid, seq, strip):
         parts.append("t%xs%xk%d" % (tid, seq, k))
     if not strip:
         parts.append("\x1b[0m")
-    crc = mix((tid * 1000003 + seq) & M64) & 0xFFFFFFFF
-    return ("<%d:%d:%s:%08x>" % (tid, seq, "".join(parts), crc)).encode()
+    return ("<%d:%d:%s:%08x>\n" % (tid, seq, "".join(parts), crc)).encode()
 
 
-HEAD = re.compile(rb"^<(\d+):(\d+):")
+HEAD = re.compile(rb"<(\d+):(\d+):")
 
 
 def to_stderr(tid, seq):
@@ -44,12 +52,7 @@ def to_stderr(tid, seq):
 
 
 def check_pipe(data, which, threads, per, strip, res, lane, stats):
-    """Offline checker for one pipe's byte stream."""
-    lines = data.split(b"\n")
-    if lines and lines[-1] == b"":
-        lines.pop()
-    else:
-        res.violation("c19:truncated-output", "[%s %s] output does not end with a newline: %r" % (lane, which, data[-80:]), check="c19", lane=lane)
+    """Offline checker for one pipe's byte stream: the stream must be a concatenation of whole records."""
     last_seq = {}
     seen = {}
     prev_tid = None
@@ -57,36 +60,59 @@ def check_pipe(data, which, threads, per, strip, res, lane, stats):
     patterns = set()
     torn = 0
     first_torn = None
-    for ln in lines:
-        m = HEAD.match(ln)
+    pos = 0
+    n = len(data)
+    nrec = 0
+    while pos < n:
+        m = HEAD.match(data, pos)
         ok = False
         if m:
             tid, seq = int(m.group(1)), int(m.group(2))
-            if tid < threads and seq < per and ln == expected_record(tid, seq, strip):
-                ok = True
+            if tid < threads and seq < per:
+                exp = expected_record(tid, seq, strip)
+                if data.startswith(exp, pos):
+                    ok = True
         if not ok:
+            # a torn record: count it once and re-synchronise on the next position where a whole record starts
             torn += 1
             if first_torn is None:
-                first_torn = ln[:200]
+                first_torn = data[pos:pos + 160]
+            q = pos + 1
+            while True:
+                q = data.find(b"<", q)
+                if q < 0:
+                    q = n
+                    break
+                m2 = HEAD.match(data, q)
+                if m2:
+                    t2, s2 = int(m2.group(1)), int(m2.group(2))
+                    if t2 < threads and s2 < per and data.startswith(expected_record(t2, s2, strip), q):
+                        break
+                q += 1
+            pos = q
             prev_tid = None
             continue
+        pos += len(exp)
+        nrec += 1
         if to_stderr(tid, seq) != (which == "stderr"):
             res.violation("c19:wrong-stream", "[%s] record %d:%d appeared on %s" % (lane, tid, seq, which), check="c19", lane=lane)
         seen[(tid, seq)] = seen.get((tid, seq), 0) + 1
         if tid in last_seq and seq <= last_seq[tid]:
             res.violation("c19:per-thread-order", "[%s %s] thread %d: record %d after record %d" % (lane, which, tid, seq, last_seq[tid]), check="c19", lane=lane)
         last_seq[tid] = seq
+        if is_long(tid, seq):
+            stats["long_records"] = stats.get("long_records", 0) + 1
         if prev_tid is not None and prev_tid != tid:
             switches += 1
             patterns.add((prev_tid, tid))
         prev_tid = tid
     if torn:
         res.violations.append({"sig": "c19:torn-record", "count": torn, "check": "c19", "lane": lane,
-                               "example": {"msg": "[%s %s] %d lines are not whole records; first: %r" % (lane, which, torn, first_torn),
+                               "example": {"msg": "[%s %s] the stream is not a concatenation of whole records at %d places; first: %r" % (lane, which, torn, first_torn),
                                            "case": {"kind": "c19-run", "lane": lane, "bytes_hex": [], "nums": []}}})
     expected = [(t, s) for t in range(threads) for s in range(per) if to_stderr(t, s) == (which == "stderr")]
     missing = [k for k in expected if k not in seen]
-    dups = [k for k, n in seen.items() if n > 1]
+    dups = [k for k, c in seen.items() if c > 1]
     if missing and not torn:
         res.violation("c19:lost-record", "[%s %s] %d records never appeared, e.g. %s" % (lane, which, len(missing), missing[:3]), check="c19", lane=lane)
     if dups:
@@ -96,7 +122,7 @@ def check_pipe(data, which, threads, per, strip, res, lane, stats):
     stats["records"] = stats.get("records", 0) + len(seen)
     stats["thread_switches"] = stats.get("thread_switches", 0) + switches
     stats.setdefault("patterns", set()).update(patterns)
-    return len(lines)
+    return nrec
 
 
 def run_print(exe, threads, per, seed, strip, timeout=900):
@@ -202,6 +228,7 @@ def miri_lane(res, tier):
     nseeds = 16 if tier == "quick" else 128
     env = dict(common.ENV)
     env["CARGO_TARGET_DIR"] = os.path.join(hd, "target-miri")
+    common.invalidate_if_sources_changed(env["CARGO_TARGET_DIR"])
     # canary: the interpreter must report the deliberate race, otherwise the lane proves nothing
     e2 = dict(env)
     e2["MIRIFLAGS"] = "-Zmiri-disable-isolation"
@@ -244,6 +271,7 @@ def tsan_lane(res, tier):
     hd = common.harness_dir()
     env = dict(common.ENV)
     env["CARGO_TARGET_DIR"] = os.path.join(hd, "target-tsan")
+    common.invalidate_if_sources_changed(env["CARGO_TARGET_DIR"])
     env["RUSTFLAGS"] = "-Zsanitizer=thread"
     try:
         b = subprocess.run(["cargo", "+nightly", "build", "--offline", "-Zbuild-std", "--target", "x86_64-unknown-linux-gnu", "--release", "-p", "vh-mt"], cwd=hd, env=env, stdout=subprocess.PIPE, stderr=subprocess.STDOUT, timeout=3600)
@@ -326,7 +354,7 @@ def run(res, tier):
             raise Inconclusive("vh-mt register exited with %d: %s" % (p.returncode, p.stderr[-300:]))
         ev += check_register(p.stdout.decode(), "native:register:seed=%d" % s, res, rstats)
     res.add_lane("native:register", "held", rstats, evaluations=ev, distinct=ev)
-    res.samples.append({"record_strip_mode": expected_record(3, 5, True).decode(), "record_pass_through_mode": expected_record(3, 5, False).decode("latin1"), "apis": "print!, println!, eprintln!, write!(stdout()), stdout().write_all, writeln!(stderr()), write_fmt, stdout().lock() + two writes"})
+    res.samples.append({"record_strip_mode": expected_record(3, 5, True).decode(), "record_pass_through_mode": expected_record(3, 5, False).decode("latin1"), "long_record_head": expected_record(0, 4, True)[:40].decode(), "apis": "print!, println!, eprintln!, write!(stdout()), stdout().write_all, writeln!(stderr()), write_fmt, stdout().lock() + two writes"})
     res.samples.append({"register_history_line_format": "thread op(w|r|f) value t_invocation t_response", "example": "0 w 3 9 10"})
     miri_lane(res, tier)
     if tier == "thorough":
